@@ -234,6 +234,8 @@ def build_modular(case, inline=False):
     used = [v for v in case['vars'] if v in F.fvars(f)]
     base_kind = {'dt_off': 'dt_off', 'dt_on': 'dt_on', 'dt_on_past': 'dt_on', 'ct_off': 'ct_off', 'ct_on': 'ct_on'}[kind]
     # interface-aware semantics and io declarations of the variables (C06 lane modular); the combined classes carry them
+    if case.get('combined'):
+        base_kind = base_kind[:2]          # the combined class of the README (offline and online in one object)
     ia = {}
     if case.get('unit'):
         ia['unit'] = case['unit']          # default unit of the specification (C10 histories that change it)
